@@ -28,7 +28,7 @@ def opHolds (op : CmpOp) (v ref : JVal) : Bool :=
 
 /-- a statement holds of a message; an object lacking the attribute simply does not match -/
 def holds (s : Stmt) (obj : JVal) : Bool :=
-  match lookupPath obj (s.attr.splitOn ".") with
+  match lookupPath obj s.attr with
   | none => false
   | some v => opHolds s.op v s.ref
 
